@@ -230,6 +230,7 @@ def run(replay=None):
         f = dict(x.split("=") for x in oc[0].split()[1:] if "=" in x)
         stats["grad_points"] += int(f["gpts"]); stats["feature_points"] += int(f["fpts"])
         stats["interval_points"] += int(f["pts"]); stats["push_points"] += int(f["ppts"])
+        stats["batch_points"] = stats.get("batch_points", 0) + int(f.get("bpts", 0))
         for l in oi:
             if "pushed_len=" in l:
                 a, b = l.split("pushed_len=")[1].split(" base_len=")
@@ -244,7 +245,9 @@ def run(replay=None):
         for key, what in (("gbad", "gradient of the oracle tree differs from the plain tree's at an unambiguous point"),
                           ("ibad", "interval result of the oracle tree does not enclose its own point value (or misses a NaN)"),
                           ("pbad", "a specialised tape / oracle context changes the answer inside its region"),
-                          ("abad", "the oracle tree reports no ambiguity where the plain tree has several distinct gradients")):
+                          ("abad", "the oracle tree reports no ambiguity where the plain tree has several distinct gradients"),
+                          ("bbad", "a batch over an oracle tree answers differently from single-point queries, or a second "
+                                   "evaluation of the same stored points differs from the first")):
             if int(f[key]):
                 ck.violation(key, what, {"program": p.text(), "detail": oc[0], "intervals": oi})
         if len(samples) < 3:
